@@ -5,7 +5,7 @@
    declarative member-by-member specification used as oracle.
    Models only — proofs are in Proofs/TarP.v. *)
 From Coq Require Import List NArith ZArith Bool.
-From FS Require Import Sx Model.Path Model.Stat Model.Tree.
+From FS Require Import Sx Model.Path Model.Stat Model.Tree Model.Hardlinks.
 Import ListNotations.
 Open Scope N_scope.
 
@@ -99,9 +99,16 @@ Definition member := (hdr * bytes)%type.
 Definition member_of_entry (e : entry) : member :=
   let h := hdr_of_stat (fst e) in (h, if has_payload h then snd e else []).
 
+(* WriteTar first wraps its FS in WithHardlinkReset (hardlinks.go, Model/Hardlinks.v): a
+   hard-link member whose source is not in the listing (filtered out) becomes the
+   representative of its group; the bytes Open serves are those of the path, unchanged *)
+Definition reset_entries (l : list entry) : list entry :=
+  combine (hardlink_reset (map fst l)) (map snd l).
+
 (* the archive of a listing (a walk, filtered or not), and of a whole view *)
 Definition tar_of_listing (l : list entry) : list member := map member_of_entry l.
-Definition tar_members (v : list node) : list member := tar_of_listing (walk_root v).
+Definition tar_members_listing (l : list entry) : list member := tar_of_listing (reset_entries l).
+Definition tar_members (v : list node) : list member := tar_members_listing (walk_root v).
 
 (* ---------- archive/tar Writer + Reader on one header (trusted, validated by the run) ----------
    Header.Format is FormatUnknown, so WriteHeader does ModTime.Round(time.Second)
@@ -172,7 +179,8 @@ Fixpoint write_loop (l : list entry) (short : bool) (idx : nat) (acc : list memb
       else write_loop r false (S idx) ((h, []) :: acc)
   end.
 
-Definition write_tar_listing (l : list entry) : tar_result := write_loop l false O [].
+Definition write_listing (l : list entry) : tar_result := write_loop l false O [].
+Definition write_tar_listing (l : list entry) : tar_result := write_listing (reset_entries l).
 Definition write_tar (v : list node) : tar_result := write_tar_listing (walk_root v).
 
 (* ---------- the inverse an extractor applies (tar.Header.FileInfo().Mode()) ---------- *)
@@ -263,7 +271,8 @@ Definition wf_entry_b (e : entry) : bool :=
       else true)
   && tar_encodable (hdr_of_stat (fst e)).
 Definition wf_listing_b (l : list entry) : bool := forallb wf_entry_b l.
-Definition wf_view (v : list node) : Prop := wf_listing_b (walk_root v) = true.
+(* a view is exportable when the listing WriteTar works on (after the hard-link reset) is *)
+Definition wf_view (v : list node) : Prop := wf_listing_b (reset_entries (walk_root v)) = true.
 
 (* link closure (needed to EXTRACT, not to write): a hard-link member names an earlier
    regular non-link entry with the same size and bytes; entries that are not regular
